@@ -454,7 +454,8 @@ type command struct {
 	Service  string            `json:"service"`
 	Method   string            `json:"method"`
 	Payload  any               `json:"payload"`
-	Messages []any             `json:"messages"` // streamed by the client (client streaming, bidirectional)
+	Messages []any             `json:"messages"`  // streamed by the client (client streaming, bidirectional)
+	CallerMD bool              `json:"caller_md"` // gRPC: the caller context already carries outgoing metadata
 	Script   script            `json:"script"`
 	Raw      *rawRequest       `json:"raw"`
 	Many     []json.RawMessage `json:"many"` // concurrent batch (C20)
